@@ -241,25 +241,35 @@ Begin ==
     /\ UNCHANGED <<cfg, now, retries, cancel, suicide, consume, pdone, timer2, lastL, lastF, proc, procRc,
                    procKilled, pdwis, didExec, h, dev, sched, obs>>
 
-(* sampling of producers_done_when_i_started, canConsume(), the launch decision *)
+(* sampling of producers_done_when_i_started, canConsume(), the launch decision.                            *)
+(* When the producers' last output AND the notification arrived inside the WINDOW, the answer of the output   *)
+(* check made before them ("no new output") is stale although the producers are now known to be finished.     *)
+(* An engine may act on the stale answer (the attempt does not execute and, the producers being finished,     *)
+(* costs a retry) or look again and execute at once: both are specified.  Acting on the stale answer is       *)
+(* harmful in exactly one case: there is no retry left -- the attempt then counts as the failed final attempt *)
+(* and the engine stops without ever looking at that output.  That is what the code does; here it is the      *)
+(* deviation "stale-check" and the specified behaviour is to look again.                                      *)
 Sample ==
     /\ pc \in {"window", "sample"}
     /\ LET c2 == consume \/ Consumable(h, cfg.mode)
-           \* the last output and the notification arrived after the (negative) output check of this very call
-           staleCheck == pdone /\ ~isNew /\ pc = "window" /\ h.lastOut2 = 2 * now /\ retries = 0
-           useDev == staleCheck /\ "stale-check" \in Deviations
-       IN /\ consume' = c2
-          /\ pdwis' = IF staleCheck /\ ~useDev THEN FALSE ELSE pdone
-          /\ dev' = IF useDev THEN dev \cup {"stale-check"} ELSE dev
-          /\ IF c2 /\ isNew
+           stale == pdone /\ ~isNew /\ pc = "window" /\ h.lastOut2 = 2 * now     \* a second look would see new output
+           mustLook == stale /\ retries = 0 /\ "stale-check" \notin Deviations
+           looks == IF ~stale THEN {FALSE} ELSE IF mustLook THEN {TRUE} ELSE {TRUE, FALSE}
+       IN \E look \in looks :
+          /\ consume' = c2
+          /\ pdwis' = pdone
+          /\ dev' = IF stale /\ ~look /\ retries = 0 THEN dev \cup {"stale-check"} ELSE dev
+          /\ IF c2 /\ (isNew \/ look)
              THEN \E d \in Durations :
                     /\ lastL' = now /\ proc' = "running" /\ procKilled' = FALSE /\ procRc' = "-"
                     /\ didExec' = TRUE /\ pc' = "exec" /\ wakeAt' = now + d
                     /\ h' = HLaunch(h, now, cfg.mode)
                     /\ sched' = Rec(sched, [a |-> "task", s |-> d])
-                    /\ obs' = Rec(obs, [k |-> "launch", t |-> now, saw |-> pdone])
+                    /\ obs' = Rec(IF stale THEN Rec(obs, [k |-> "choice", t |-> now, saw |-> look]) ELSE obs,
+                                  [k |-> "launch", t |-> now, saw |-> pdone])
              ELSE /\ didExec' = FALSE /\ pc' = "decide"
-                  /\ UNCHANGED <<lastL, proc, procKilled, procRc, wakeAt, h, sched, obs>>
+                  /\ obs' = IF stale THEN Rec(obs, [k |-> "choice", t |-> now, saw |-> look]) ELSE obs
+                  /\ UNCHANGED <<lastL, proc, procKilled, procRc, wakeAt, h, sched>>
     /\ UNCHANGED <<cfg, now, retries, cancel, suicide, kc, pdone, timer2, lastF, begun, isNew>>
 
 (* my_process.wait() returns *)
@@ -346,8 +356,8 @@ KillDelay ==
        THEN \* the task is just finishing: nothing left to kill; Decide services _suicide
             UNCHANGED <<cancel, kc, procKilled, wakeAt, dev>>
        ELSE \* idle between two executions, self.process is the finished task
-            \/ /\ "stale-suicide" \notin Deviations           \* specified: stop, as for a fresh engine
-               /\ cancel' = TRUE /\ kc' = TRUE /\ UNCHANGED <<procKilled, wakeAt, dev>>
+            \/ /\ cancel' = TRUE /\ kc' = TRUE                  \* specified: stop, as for a fresh engine
+               /\ UNCHANGED <<procKilled, wakeAt, dev>>
             \/ /\ "stale-suicide" \in Deviations              \* the code: kill the stale process (no effect)
                /\ dev' = dev \cup {"stale-suicide"}
                /\ UNCHANGED <<cancel, kc, procKilled, wakeAt>>
